@@ -232,8 +232,21 @@ def execute(plan):
             probes['corrupted_handover'] = 1
         y_hand = ss.PFlow.y_sol.copy()
         ec0 = ss.exit_code
-        with np.errstate(all='ignore'):
-            ss.TDS.init()
+        try:
+            with np.errstate(all='ignore'):
+                ss.TDS.init()
+        except Exception as e:
+            if corrupt and corrupt['kind'] in ('v_nan', 'gov_R0') and ss.TDS.test_ok is not True:
+                # a not-a-number reached an iteratively initialised model (SciPy refuses non-finite input): the initialisation ended
+                # with an exception, which is not a reported success -- nothing more to judge in this plan
+                probes['init_raised_on_nan'] = 1
+                res['probes'] = probes
+                res['faults'] = {'handover_' + corrupt['kind']: 1}
+                res['sig'] = json.dumps([plan['case'], 'init-raised', corrupt['kind']])
+                res['nontrivial'] = True
+                res['digest'] = 'init-raised-%s' % type(e).__name__
+                return res
+            raise
         tol = ss.TDS.config.tol
         fg = np.concatenate([ss.dae.f, ss.dae.g])
         resid = float(np.max(np.abs(fg))) if fg.size else 0.0
